@@ -11,3 +11,30 @@ def replay_pending_print_config(rec):
     after = outcome(p.parse_args, ["--items=[1]"])
     bad = fresh[0] != after[0]
     return {"reproduced": bad, "signature": "pending-print_config-survives-a-failing-parse" if bad else "", "fresh_parser": fresh[:2], "first_call": first[:2], "same_call_after_failing_request": after[:2]}
+
+
+def replay_dataclass_history(rec):
+    from dataclasses import dataclass
+    from typing import Optional
+    from jsonargparse import ArgumentParser
+
+    @dataclass
+    class D:
+        a: int = 1
+        b: int = 2
+
+    class M:
+        def __init__(self, d: Optional[D] = None):
+            self.d = d
+
+    def mk():
+        p = ArgumentParser(exit_on_error=False)
+        p.add_class_arguments(M, "m")
+        return p
+
+    p = mk()
+    p.parse_args(["--m.d.a=5"])
+    after = p.parse_args(['--m.d={"b": 3}']).m.d
+    fresh = mk().parse_args(['--m.d={"b": 3}']).m.d
+    bad = after != fresh
+    return {"reproduced": bad, "signature": "dataclass-prev-value-remembered-in-the-action" if bad else "", "history": ["parse_args(['--m.d.a=5'])", "parse_args(['--m.d={\"b\": 3}'])"], "same_parser": str(after), "fresh_parser": str(fresh)}
